@@ -96,3 +96,19 @@ Example demo_invalid :
   valid_doc demo_story (JObj [("version"%string, JStr "1"); ("current_passage_id"%string, JStr "A");
                               ("join_section_index"%string, JObj [("A"%string, JInt (-1))])]) = false.
 Proof. vm_compute. repeat split. Qed.
+
+(* =========================================================================================== *)
+(* 'after a JSON round trip': the save document as TEXT (Codec/JsonText.v, Proofs/JsonTextSave.v) *)
+(* =========================================================================================== *)
+From Bardic Require Import Codec JsonText JsonTextProofs JsonTextSave.
+
+(* C05: the document of save_state(), written as text (either layout) and read back *)
+Theorem save_text_roundtrip_c05 : forall cx fuel out_enc e doc,
+  ctx_kd cx -> env_kd (vars (ec e)) ->
+  NoDup (map fst (hooks (ec e))) -> NoDup (map fst (joinidx (ec e))) ->
+  (forall o, out (ec e) = Some o -> keys_distinct (out_enc o)) ->
+  save_json cx fuel out_enc e = Some doc ->
+  loads (dumps doc) = Some (json_rt doc) /\ loads (dumps_indent2 doc) = Some (json_rt doc).
+Proof. exact save_text_roundtrip. Qed.
+Print Assumptions save_text_roundtrip_c05.
+
